@@ -408,6 +408,38 @@ func c19Run(in []string) []string {
 		vu.Stat("strategy=" + sp[:1])
 		strategies[i] = &c19Rec{inner: inner, log: &log}
 	}
+	// aliasing mode: how the caller allocated the two argument slices
+	//   CP / CPN  independent arrays, len == cap
+	//   CPA1      existing = heads[:k], options = heads  (needs options to start with existing)
+	//   CPA2      existing has spare capacity (separate array), the spare part holds sentinels
+	//   CPA3      heads = existing ++ options in ONE array: existing = heads[:k] (cap reaches over options),
+	//             options = heads[k:]
+	var spare hash.Events // the part of existing's backing array beyond its length, as the caller sees it
+	sentinel := c19Hash(0xfffffffffffffff0)
+	switch in[0] {
+	case "CPA1":
+		ok := len(options) >= len(existing)
+		for i := 0; ok && i < len(existing); i++ {
+			ok = options[i] == existing[i]
+		}
+		if ok {
+			heads := append(hash.Events{}, options...)
+			existing, options = heads[:len(existing)], heads
+			vu.Stat("alias.existing_prefix_of_options_array")
+		}
+	case "CPA2":
+		arr := make(hash.Events, len(existing)+6)
+		copy(arr, existing)
+		for i := len(existing); i < len(arr); i++ {
+			arr[i] = sentinel
+		}
+		existing, spare = arr[:len(existing)], arr[len(existing):]
+		vu.Stat("alias.existing_spare_capacity")
+	case "CPA3":
+		heads := append(append(hash.Events{}, existing...), options...)
+		existing, options = heads[:len(existing)], heads[len(existing):]
+		vu.Stat("alias.existing_and_options_adjacent")
+	}
 	var res hash.Events
 	status := "ok"
 	func() {
@@ -435,6 +467,11 @@ func c19Run(in []string) []string {
 				status = "mutated-options"
 			}
 		}
+		for _, h := range spare {
+			if h != sentinel {
+				status = "mutated-existing-spare"
+			}
+		}
 	}()
 	var obs []string
 	for _, r := range log {
@@ -450,6 +487,15 @@ func c19Run(in []string) []string {
 	}
 	obs = append(obs, "res", status, vu.Itoa(len(res)))
 	for _, h := range res {
+		obs = append(obs, vu.U64(c19ID(h)))
+	}
+	// the caller's slices AFTER the call (ChooseParents is a pure function of the values)
+	obs = append(obs, "ex", vu.Itoa(len(existing)))
+	for _, h := range existing {
+		obs = append(obs, vu.U64(c19ID(h)))
+	}
+	obs = append(obs, "op", vu.Itoa(len(options)))
+	for _, h := range options {
 		obs = append(obs, vu.U64(c19ID(h)))
 	}
 	vu.Stat("rounds=" + vu.Itoa(len(log)))
@@ -672,6 +718,43 @@ func init() {
 						}
 					}
 				}
+			}
+			// aliasing between the two argument slices (a harness dimension: the model is a function of values)
+			for i := 0; i < 150+n/20; i++ {
+				pool := 3 + r.Intn(10)
+				perm := r.Perm(pool)
+				k := r.Intn(3)
+				var existing, options []uint64
+				for _, x := range perm[:k] {
+					existing = append(existing, uint64(x))
+				}
+				op := []string{"CPA1", "CPA2", "CPA3"}[r.Intn(3)]
+				if op == "CPA1" {
+					options = append(options, existing...)
+				}
+				for _, x := range perm[k : k+1+r.Intn(pool-k)] {
+					options = append(options, uint64(x))
+				}
+				if r.Intn(4) == 0 {
+					options = append(options, options[r.Intn(len(options))])
+				}
+				ns := 2 + r.Intn(4)
+				specs := make([]string, ns)
+				for j := range specs {
+					switch r.Intn(4) {
+					case 0:
+						specs[j] = "M"
+					case 1:
+						specs[j] = "R" + strconv.Itoa(r.Intn(1000))
+					default:
+						specs[j] = "I" + strconv.Itoa(r.Intn(20))
+					}
+				}
+				var table [][2]uint64
+				for id := 0; id < pool; id++ {
+					table = append(table, [2]uint64{uint64(id), uint64(r.Intn(9))})
+				}
+				c19EmitOp(emit, op, existing, options, specs, table)
 			}
 			// configuration / size sweep (always)
 			{
